@@ -94,6 +94,9 @@ func c16Payloads(c *cluster.Cluster, m *cluster.Member) map[string]string {
 	t[0] = nil
 	put("rt_nilroute", c16MustPack(t))
 	t = cur()
+	t[0] = &c16Route{Owners: nil, Backups: t[0].Backups} // a partition without any owner
+	put("rt_emptyowners", c16MustPack(t))
+	t = cur()
 	for p := uint64(3); p < c16Partitions; p++ {
 		delete(t, p)
 	}
@@ -147,6 +150,9 @@ func c16Payloads(c *cluster.Cluster, m *cluster.Member) map[string]string {
 		bad.HKeys[hk] = pk.Allocated * 2 // entry offsets beyond the table memory
 	}
 	put("mf_inner_bad_hkey", fp(owned, partitions.PRIMARY, c16MustPack(bad)))
+	bad = pk
+	bad.Allocated = 1 << 60 // a table of an exabyte
+	put("mf_inner_huge_allocated", fp(owned, partitions.PRIMARY, c16MustPack(bad)))
 	bad = pk
 	bad.OffsetIndex = []byte{1, 2, 3}
 	put("mf_inner_bad_index", fp(owned, partitions.PRIMARY, c16MustPack(bad)))
